@@ -245,6 +245,7 @@ def _install_recorder():
         if _SPANS is not None:
             _SPANS.append((type(self).__name__, starttoken, dict(kw), list(r)))
         return r
+    rec.__wrapped__ = orig
     cp.util.Base._tokensupto2 = rec
     cp.util.Base._verif_wrapped = True
 
@@ -493,7 +494,12 @@ def run(tier, seed):
             findings.add('ghost', why[6:], why)
         else:
             findings.add(case[0], repr(case[1:]), why)
+    # how much of the boundary finder do the inputs execute (a measurement, not a verdict)
+    coverage_lines = lib.modelled_code_coverage([('css_parser.util', 'Base._tokensupto2')],
+                                                [lambda c=c: upto_py(c) for c in uc[::max(1, len(uc) // 1500)]] +
+                                                [lambda c=c: oracle(c) for c in cases[::max(1, len(cases) // 400)]], limit=2000)
     coverage = {
+        'modelled_code_line_coverage': coverage_lines,
         'evaluations': res['n'] + n_corr,
         'distinct_nontrivial': len(set(repr(c) for c in cases)),
         'rule': '(good, junk, good) triples: junk rule-sets with every token kind first and a poison token at depth 0 of '
